@@ -150,7 +150,7 @@ def check_steps(model, obs, flows):
         got = calls[:len(exp)]
         if got != exp:
             i = next((i for i, (x, y) in enumerate(zip(got, exp)) if x != y), min(len(got), len(exp)))
-            cg, ce = Counter(got), Counter(exp)
+            cg, ce = Counter(calls), Counter(exp) + Counter((x, "distribute") for x in rivers)
             cnt = [f"{n}.{f}() applied {cg[(n, f)]} time(s), listed {ce[(n, f)]} time(s)" for n, f in sorted(set(cg) | set(ce)) if cg[(n, f)] != ce[(n, f)]]
             bad.append(f"{d}: orchestration calls differ from the listed order at position {i}: observed "
                        f"{got[i] if i < len(got) else 'nothing'}, listed {exp[i] if i < len(exp) else 'nothing'}"
@@ -381,10 +381,14 @@ def run(rep, thorough):
     stats = {"models": 0, "orchestrations": 0, "custom_orchestrations": 0, "with_repeated_entry": 0, "with_multikey_entry": 0,
              "river_networks": 0, "confluences": 0, "instantiated_builder": 0, "timesteps": 0, "run_errors": 0,
              "divergent_cases": 0, "divergent_order_failures": 0, "violations": 0}
-    nmod, norch, nnet = (40, 4, 150) if thorough else (12, 3, 40)
+    nmod, norch, nnet = (120, 5, 500) if thorough else (24, 4, 80)
     sizes = ["river", "supply", "land", "full"]
     for i in range(nmod):
         cfg = NG.gen_model(r, ndates=r.choice([3, 4]), size=sizes[i % 4])
+        types = {n["name"]: n["type_"] for n in cfg["nodes"]}
+        for a in cfg["arcs"]:          # sometimes a river reach with travel time
+            if types[a["in_port"]] == "River" and types[a["out_port"]] == "River" and r.random() < 0.25:
+                a.update({"type_": "QueueArc", "number_of_timesteps": r.choice([1, 2])})
         stats["models"] += 1
         for j in range(norch):
             orch = None if j == 0 else gen_orchestration(r)
